@@ -191,8 +191,11 @@ CLAIMED = {
             'Static, one of the three mechanisms the property names: the anti-cycling switch of the simplex (termination of CDCL with restarts and of the lookahead search needs ranking '
             'arguments and is not decided). In Simplex::checkSimplex every iteration of the pivoting loop increments the repeat counter and nothing lowers it; the Bland flag is only ever set '
             'inside the loop, under a comparison of the counter with a loop-invariant bound; with the flag set both the leaving and the entering variable come from the Bland selectors; the '
-            'loop is left only by return; both selectors keep the candidate with the smallest variable id. With Bland\'s theorem this makes every simplex call terminate.',
-            'static analysis: path walk of one loop iteration (monotone counter and flag, selectors per flag value) + minimum-selection shape rule', 'Bland\'s theorem is assumed, not proved'),
+            'loop is left only by return; both selectors keep the candidate with the smallest variable id. With Bland\'s theorem this makes every simplex call terminate. Two further '
+            'necessary conditions found through replayed hangs: decision[] and dec_vars are written only by setDecisionVar (the lookahead engine detects a full assignment by '
+            'trail.size() == dec_vars), and the arithmetic substitution step never produces a replacement that can contain another key (abstract evaluation of '
+            'polyToPTRefSubstitution), so the transitive closure of the substitution map terminates.',
+            'static analysis: path walk of one loop iteration (monotone counter and flag, selectors per flag value) + abstract evaluation of the selectors and of the substitution guard + who-may-write rule on the decision counter', 'Bland\'s theorem is assumed, not proved'),
     'C15': ('other',
             'Static: (1) UB-obligation engine - every compiler-inserted sanitizer obligation (signed overflow, narrowing, sign change, float cast) in FastRational.h/.cc is '
             'either deleted by LLVM -O2 range analysis or listed in a table with a written justification and the guards it relies on (guards must still be present); the IR '
@@ -209,7 +212,9 @@ CLAIMED = {
             'Static: where the code forks on an option the forks are exhaustive (createTheory over Logic_t) and sibling branches agree on the mandatory steps (per-partition vs '
             'whole-frame preprocessing); code that only some configurations execute keeps the shared invariants - every engine precedes its model-found exits by a complete '
             'theory check and sets the conflict frame, SatELite respects frozen variables, conflict-clause minimisation restores its scratch marks on every negative exit, '
-            'randomised choices draw from the configured seed. Necessary conditions; that two code paths compute the same answer is not decided.',
+            'randomised choices draw from the configured seed; variables announced to the SAT solver outside a clause are frozen before SatELite runs; the ghost-variable engine '
+            'records every original clause under its theory literals independently of the (later) declaration state and never treats a Boolean nested in an uninterpreted '
+            'function as a ghost (abstract evaluation of attachClause / isGhost). Necessary conditions; that two code paths compute the same answer is not decided.',
             'static analysis: exhaustiveness and sibling-branch agreement rules + the path-sensitive engine rules shared with C01/C02/C04/C23', ''),
 }
 
